@@ -22,7 +22,8 @@ Inductive expr :=
 | ETern (c a b : expr) | ECoal (a b : expr)
 | EMapLit (kvs : list (expr * expr))
 | EIndex (base idx : expr)
-| ECall (f : bytes) (args : list expr).
+| ECall (f : bytes) (args : list expr)
+| EFun1 (f : fun1) (a : expr).
 
 Inductive lbase := LField (k : bytes) | LOos (k : bytes) | LLocal (x : bytes).
 
@@ -44,16 +45,19 @@ Inductive stmt :=
 | SEmitMap (e : expr)                               (* emit @*, emit $*, emit {...} *)
 | SEmitNamed (name : bytes) (e : expr) (keys : list bytes)  (* emit @name / emit name [, "k1", ...] *)
 | SFilter (e : expr)
-| SBare (e : expr).
+| SBare (e : expr)
+| SCall (name : bytes) (args : list expr).        (* call of a subroutine *)
 
-Record fdef := { f_name : bytes; f_params : list (tyname * bytes); f_ret : tyname; f_body : list stmt }.
+(* user-defined functions and subroutines (f_sub = true; separate name spaces, f_ret unused) *)
+Record fdef := { f_name : bytes; f_sub : bool; f_params : list (tyname * bytes); f_ret : tyname; f_body : list stmt }.
 
 Record prog := { p_funcs : list fdef; p_begin : list (list stmt); p_main : list stmt; p_end : list (list stmt) }.
 
-(* behaviours of the pinned tree that contradict the reference: selectable so that both the faithful and the
-   repaired semantics are available (DESIGN 2.5).  true = what the reference says. *)
-Record variant := { v_filter_per_record : bool; v_idx_gate : bool }.
-Definition documented : variant := {| v_filter_per_record := true; v_idx_gate := true |}.
+(* a behaviour of an earlier tree that contradicted the reference, kept selectable as documentation (DESIGN 2.5):
+   v_filter_per_record = false is the code before the repair of put_or_filter.go (FilterExpression never reset).
+   The tree and the reference are [documented]. *)
+Record variant := { v_filter_per_record : bool }.
+Definition documented : variant := {| v_filter_per_record := true |}.
 
 (* ---- runtime state: pkg/runtime/state.go *)
 Inductive outitem := ORec (r : amap) | OLine (s : bytes).
@@ -81,7 +85,8 @@ Inductive task :=
 | TEval (e : expr)
 | TEvals (es : list expr)
 | TIdx (es : list expr) (acc : list value)            (* lvalue indices: stop at the first absent one *)
-| TArgs (es : list expr) (ps : list (tyname * bytes))  (* call arguments with their parameter gates *)
+| TArgs (soft : bool) (es : list expr) (ps : list (tyname * bytes))  (* call arguments with their parameter gates;
+                                                          a rejected argument is fatal for functions, a statement error (soft) for subroutines *)
 | TMapLit (kvs : list (expr * expr)) (acc : amap)
 | TExec (s : stmt)
 | TSeq (ss : list stmt)                               (* ExecuteFrameless *)
@@ -103,7 +108,7 @@ Inductive tres :=
 Definition recfn := task -> state -> res (tres * state).
 
 Section Step.
-Variable vr : variant.
+
 Variable fns : list fdef.
 Variable rec : recfn.
 
@@ -122,12 +127,13 @@ Definition pop_frame (st : state) := set_stk (a_pop_frame (stk st)) st.
 Definition push_set (st : state) := set_stk (a_push_set (stk st)) st.
 Definition pop_set (st : state) := set_stk (a_pop_set (stk st)) st.
 
-Fixpoint find_fn (name : bytes) (arity : nat) (l : list fdef) : option fdef :=
+Fixpoint find_fn (sub : bool) (name : bytes) (arity : nat) (l : list fdef) : option fdef :=
   match l with
   | [] => None
-  | f :: t => if beqb name (f_name f) && Nat.eqb arity (List.length (f_params f)) then Some f else find_fn name arity t
+  | f :: t => if Bool.eqb sub (f_sub f) && beqb name (f_name f) && Nat.eqb arity (List.length (f_params f)) then Some f
+              else find_fn sub name arity t
   end.
-Definition fn_named (name : bytes) (l : list fdef) : bool := existsb (fun f => beqb name (f_name f)) l.
+Definition fn_named (name : bytes) (l : list fdef) : bool := existsb (fun f => negb (f_sub f) && beqb name (f_name f)) l.
 
 Fixpoint bind_params (ps : list (tyname * bytes)) (vs : list value) (s : astack) : option astack :=
   match ps, vs with
@@ -179,10 +185,10 @@ Definition lift (r : res value) (st : state) : res (tres * state) :=
   do v <- r; rv v st.
 
 Definition eval_call (f : bytes) (args : list expr) (st : state) : res (tres * state) :=
-  match find_fn f (List.length args) fns with
+  match find_fn false f (List.length args) fns with
   | None => Fatal
   | Some fd =>
-      do (r, st1) <- rec (TArgs args (f_params fd)) st;
+      do (r, st1) <- rec (TArgs false args (f_params fd)) st;
       match r with
       | RVs vs =>
           match bind_params (f_params fd) vs (a_push_set (stk st1)) with
@@ -243,6 +249,7 @@ Definition eval_expr (e : expr) (st : state) : res (tres * state) :=
   | EIndex b i =>
       do (vb, st1) <- ev b st; do (vi, st2) <- ev i st1; lift (index_read vb vi) st2
   | ECall f args => eval_call f args st
+  | EFun1 f a => do (va, st1) <- ev a st; rv (apply_fun1 f va) st1
   end.
 
 (* ---- assignments: lvalues.go *)
@@ -262,50 +269,56 @@ Definition assign_direct (b : lbase) (v : value) (st : state) : res (tres * stat
 Definition of_pres (p : pres) (k : amap -> res (tres * state)) (st : state) : res (tres * state) :=
   match p with POk m => k m | PErr => ro OErr st | PUnsup => Unsup end.
 
+(* StackFrameSet.setIndexed / StackFrame.setIndexed: the nearest frame that has the name, else the current frame.
+   A variable that is unset, absent or holds a non-collection is ASSIGNED a fresh map (through its type gate, frame.set);
+   a variable holding a map is updated in place. *)
+Definition fresh_indexed (vs : list value) (v : value) : pres :=
+  match vs with
+  | k :: _ => match strict_key k with None => PErr | Some _ => put_indexed_map [] vs v end
+  | [] => PUnsup
+  end.
+
 Definition assign_local_indexed (x : bytes) (vs : list value) (v : value) (st : state) : res (tres * state) :=
   match stk st with
   | [] => Unsup
   | fs :: r =>
-      let fresh (settop : bool) :=
-        match vs with
-        | k :: _ =>
-            match strict_key k with
-            | None => ro OErr st
-            | Some _ =>
-                of_pres (put_indexed_map [] vs v)
-                  (fun m => match (if settop then a_set_at_scope x (VMap m) (stk st) else a_set x (VMap m) (stk st)) with
-                            | Some s => ro ONormal (set_stk s st)
-                            | None => ro OErr st
-                            end) st
-            end
-        | [] => Unsup
-        end in
       match fs_get x fs with
-      | None => fresh true
-      | Some VAbsent => fresh false
-      | Some cur =>
-          of_pres (put_indexed_value cur vs v)
-            (fun m =>
-               let ok := if v_idx_gate vr
-                         then match fs_type x fs with Some t => gate t (VMap m) | None => true end
-                         else true in
-               if ok then
-                 match fs_poke x (VMap m) fs with
-                 | Some fs' => ro ONormal (set_stk (fs' :: r) st)
-                 | None => Unsup
-                 end
-               else ro OErr st) st
+      | Some (VMap cur) =>
+          of_pres (put_indexed_map cur vs v)
+            (fun m => match fs_poke x (VMap m) fs with
+                      | Some fs' => ro ONormal (set_stk (fs' :: r) st)
+                      | None => Unsup
+                      end) st
+      | _ =>
+          (* not bound at all (new "any" slot in the current frame) or bound to a non-collection (gated assignment):
+             both are what a_set does *)
+          of_pres (fresh_indexed vs v)
+            (fun m => match a_set x (VMap m) (stk st) with
+                      | Some s => ro ONormal (set_stk s st)
+                      | None => ro OErr st
+                      end) st
       end
+  end.
+
+(* $k[...] / @k[...] when $k / @k currently holds a non-collection: the tree converts the stored value in place, which is
+   visible through a local that was bound to that field/oosvar by reference (pending finding): outside the fragment *)
+Definition top_scalar (k : bytes) (m : amap) : bool :=
+  match mget k m with
+  | Some (VMap _) => false
+  | Some _ => true
+  | None => false
   end.
 
 Definition assign_indexed (b : lbase) (vs : list value) (v : value) (st : state) : res (tres * state) :=
   match b with
   | LField k => match inrec st with
                 | None => ro OErr st
-                | Some r => of_pres (put_indexed_map r (VStr k :: vs) v)
+                | Some r => if top_scalar k r then Unsup else
+                            of_pres (put_indexed_map r (VStr k :: vs) v)
                               (fun m => ro ONormal (set_inrec (Some m) st)) st
                 end
-  | LOos k => of_pres (put_indexed_map (oos st) (VStr k :: vs) v)
+  | LOos k => if top_scalar k (oos st) then Unsup else
+              of_pres (put_indexed_map (oos st) (VStr k :: vs) v)
                 (fun m => ro ONormal (set_oos m st)) st
   | LLocal x => assign_local_indexed x vs v st
   end.
@@ -349,6 +362,31 @@ Definition loop_after_body (o : outcome) (st : state) (continue_ : state -> res 
   | ORet v => ro (ORet v) st
   | OErr => ro OErr st
   | ONormal | OContinue => continue_ st
+  end.
+
+(* UDSCallsite.Execute (uds.go).  A rejected argument or parameter binding is a statement error.  [return] inside the
+   subroutine ends the subroutine only (reference semantics; the tree hands the return payload on to the caller's block:
+   pending finding subroutine-return-exits-caller-block, the generator does not put return into subroutines). *)
+Definition exec_call (name : bytes) (args : list expr) (st : state) : res (tres * state) :=
+  match find_fn true name (List.length args) fns with
+  | None => Fatal
+  | Some fd =>
+      do (r, st1) <- rec (TArgs true args (f_params fd)) st;
+      match r with
+      | ROpt None => ro OErr st1
+      | RVs vs =>
+          match bind_params (f_params fd) vs (a_push_set (stk st1)) with
+          | None => ro OErr st1
+          | Some s2 =>
+              do (o, st3) <- ex (TBlock (f_body fd)) (set_stk s2 st1);
+              let st4 := pop_set st3 in
+              match o with
+              | OErr => ro OErr st4
+              | _ => ro ONormal st4
+              end
+          end
+      | _ => Unsup
+      end
   end.
 
 Definition exec_stmt (s : stmt) (st : state) : res (tres * state) :=
@@ -453,6 +491,7 @@ Definition exec_stmt (s : stmt) (st : state) : res (tres * state) :=
       end
   | SFilter e => do (v, st1) <- ev e st; ro ONormal (set_filt v st1)
   | SBare e => do (v, st1) <- ev e st; ro ONormal st1
+  | SCall name args => exec_call name args st
   end.
 
 Definition cond_bool (v : value) : option bool := match v with VBool b => Some b | _ => None end.
@@ -467,14 +506,18 @@ Definition step (t : task) (st : state) : res (tres * state) :=
   | TIdx (e :: es) acc =>
       do (v, st1) <- ev e st;
       match v with VAbsent => Ok (ROpt None, st1) | _ => rec (TIdx es (v :: acc)) st1 end
-  | TArgs [] [] => Ok (RVs [], st)
-  | TArgs (e :: es) ((ty, _) :: ps) =>
+  | TArgs soft [] [] => Ok (RVs [], st)
+  | TArgs soft (e :: es) ((ty, _) :: ps) =>
       do (v, st1) <- ev e st;
       if gate ty v then
-        do (r, st2) <- rec (TArgs es ps) st1;
-        match r with RVs vs => Ok (RVs (v :: vs), st2) | _ => Unsup end
-      else Fatal
-  | TArgs _ _ => Fatal
+        do (r, st2) <- rec (TArgs soft es ps) st1;
+        match r with
+        | RVs vs => Ok (RVs (v :: vs), st2)
+        | ROpt None => Ok (ROpt None, st2)
+        | _ => Unsup
+        end
+      else if soft then Ok (ROpt None, st1) else Fatal
+  | TArgs _ _ _ => Fatal
   | TMapLit [] acc => rv (VMap acc) st
   | TMapLit ((ke, ve) :: rest) acc =>
       do (vk, st1) <- ev ke st; do (vv, st2) <- ev ve st1;
@@ -575,28 +618,28 @@ Definition step (t : task) (st : state) : res (tres * state) :=
 
 End Step.
 
-Fixpoint run (vr : variant) (fns : list fdef) (fuel : nat) : recfn :=
+Fixpoint run (fns : list fdef) (fuel : nat) : recfn :=
   match fuel with
   | O => fun _ _ => OutOfFuel
-  | S f => step vr fns (run vr fns f)
+  | S f => step fns (run fns f)
   end.
 
 (* ---- the put transformer: put_or_filter.go Transform *)
 Definition init_state : state :=
   {| inrec := None; oos := []; stk := a_new; filt := VAbsent; outp := []; nr := 0 |}.
 
-Definition run_block (vr : variant) (fns : list fdef) (fuel : nat) (b : list stmt) (st : state) : res state :=
-  do (r, st') <- run vr fns fuel (TBlock b) st;
+Definition run_block (fns : list fdef) (fuel : nat) (b : list stmt) (st : state) : res state :=
+  do (r, st') <- run fns fuel (TBlock b) st;
   match r with
   | RO OErr => Fatal
   | RO _ => Ok st'
   | _ => Unsup
   end.
 
-Fixpoint run_blocks (vr : variant) (fns : list fdef) (fuel : nat) (bs : list (list stmt)) (st : state) : res state :=
+Fixpoint run_blocks (fns : list fdef) (fuel : nat) (bs : list (list stmt)) (st : state) : res state :=
   match bs with
   | [] => Ok st
-  | b :: t => do st' <- run_block vr fns fuel b st; run_blocks vr fns fuel t st'
+  | b :: t => do st' <- run_block fns fuel b st; run_blocks fns fuel t st'
   end.
 
 Definition passes (quiet : bool) (f : value) : bool :=
@@ -608,7 +651,7 @@ Fixpoint run_records (vr : variant) (p : prog) (quiet : bool) (fuel : nat) (recs
   | r :: t =>
       let st0 := set_nr (nr st + 1) (set_inrec (Some r) st) in
       let st0 := if v_filter_per_record vr then set_filt VAbsent st0 else st0 in
-      do st1 <- run_block vr (p_funcs p) fuel (p_main p) st0;
+      do st1 <- run_block (p_funcs p) fuel (p_main p) st0;
       let st2 := match inrec st1 with
                  | Some r' => if passes quiet (filt st1) then emit_item (ORec r') st1 else st1
                  | None => st1
@@ -618,7 +661,7 @@ Fixpoint run_records (vr : variant) (p : prog) (quiet : bool) (fuel : nat) (recs
 
 Definition run_prog (vr : variant) (p : prog) (quiet : bool) (fuel : nat) (recs : list amap) : res (list outitem) :=
   (* the begin blocks run when the first record arrives, with that record's context (NR = 1), or at end of stream (NR = 0) *)
-  do st1 <- run_blocks vr (p_funcs p) fuel (p_begin p) (set_nr (match recs with [] => 0 | _ => 1 end) init_state);
+  do st1 <- run_blocks (p_funcs p) fuel (p_begin p) (set_nr (match recs with [] => 0 | _ => 1 end) init_state);
   do st2 <- run_records vr p quiet fuel recs (set_nr 0 st1);
-  do st3 <- run_blocks vr (p_funcs p) fuel (p_end p) (set_inrec None st2);
+  do st3 <- run_blocks (p_funcs p) fuel (p_end p) (set_inrec None st2);
   Ok (rev (outp st3)).
